@@ -96,7 +96,7 @@ def main(tier):
         cc.run_plan(rep, b, ch, drv, plan)
         rng = core.rng("c08")
         pairs = []
-        npairs = 1200 if quick else 12000
+        npairs = 1200 if quick else 150000
         for i in range(npairs):
             la = rng.choice(bnd) if rng.random() < 0.6 else rng.randrange(chainmod.LDN_1601, caldrv.TAIL_FIRST)
             la = min(la, caldrv.TAIL_FIRST - 50)
@@ -105,7 +105,7 @@ def main(tier):
             wt = rng.random() < 0.4
             pairs.append(((la, rng.choice(TIMES) if wt else None), (lb, rng.choice(TIMES) if wt else None)))
         ex = dtest_runs(rep, b, ch, pairs, rng)
-        ex += dsort_runs(rep, b, ch, rng, 60 if quick else 600, 60 if quick else 300)
+        ex += dsort_runs(rep, b, ch, rng, 60 if quick else 4000, 60 if quick else 300)
         cc.validate_and_report(rep, "OrderTrace", "OrderTrace.cfg", ex, lambda bad, e: "cli %s" % bad.get("src", "?"), "tool_execution")
         rep.cov["rule"] = ("A: one case = ordered pair (and triple for the range predicate) of days in one notation, all 9 notations, "
                            "windows of +-20|45 days around every 3rd|every day plus seeded far pairs; B: one trace = one dtest run "
